@@ -224,4 +224,36 @@ theorem C18_timer_not_early (fd bd t0 : Nat) (tl : List (Nat × TAct)) (T : Nat)
 example : (Timers.start 2000 2000 0).run [(100, .backendBytes), (1500, .writeOnly), (2200, .clientBytes)] = some 2100 := by
   decide
 
+
+/-! ## the loop of an upgraded WebSocket (`Pipe::ready`), tied in-process to the real code -/
+
+/-- One wake-up of `Pipe::ready` after any batch of outside events (sends, FINs, room,
+    a full backend send buffer, socket errors), from any state whose histories are
+    consistent: no byte is invented, lost from the books, duplicated or reordered — each
+    direction still reads `sent = written ++ buffered ++ queued in the kernel` — whether
+    the wake-up ends in `Continue`, `Close` or the `MAX_LOOP_ITERATIONS` cap. -/
+theorem C18_ws_ready_exact (s : Sess) (evs : List Ev) (hf : Fifo s.p) :
+    let r := (evs.foldl Sess.apply s).readyWs
+    Fifo r.1.p ∧ r.1.streamC = s.streamC ++ sentC evs ∧ r.1.streamB = s.streamB ++ sentB evs := by
+  intro r
+  obtain ⟨a1, a2, a3⟩ := apply_streams evs s hf
+  have ar := acc_readyWs _ a1
+  exact ⟨ar.1, ar.2.1.trans a2, ar.2.2.trans a3⟩
+
+example : (([Ev.backendRoom 100, .clientSend [1, 2, 3]].foldl Sess.apply ({ p := Pipe.new 8 } : Sess)).readyWs).1.p.wroteB
+    = [1, 2, 3] := by decide +kernel
+
+/-- A backend ERROR event while response bytes are still buffered: `backend_hup` keeps the
+    session (`Continue`), nothing clears the event, and the loop turns until the
+    `MAX_LOOP_ITERATIONS` cap closes the session (the code logs "probable infinite loop
+    bug"); the buffered bytes are dropped. Differentially confirmed on the real `Pipe::ready`. -/
+theorem C18_ws_backend_error_spins_to_cap :
+    let s0 := [Ev.backendSend [1, 2], .backErr].foldl Sess.apply ({ p := Pipe.new 32 } : Sess)
+    let s1 := (Sess.loop 1 s0).1
+    (Sess.loop 1 s0).2 = .loopCap ∧ s1.p.bbuf.data = [1, 2] ∧ ∀ n, Sess.loop n s1 = (s1, .loopCap) := by
+  intro s0 s1
+  refine ⟨by decide +kernel, by decide +kernel, ?_⟩
+  apply loop_fixed_point
+  decide +kernel
+
 end Sozu.Pipe
